@@ -47,11 +47,12 @@ enum { OP_FREE = 0, OP_DUP = 1, OP_READ = 2 };
 static const char *const op_name[] = { "free", "dup", "read" };
 
 enum { CL_FREE_OVERLAP, CL_DUP_FREE_OVERLAP, CL_LAST_TWO_DIFFERENT, CL_3THREADS, CL_SWITCH_IN_OP, CL_POOL0, CL_POOLN,
-       CL_POL_TAPE, CL_POL_PCT, CL_POL_PREFIX, CL_DUP_DONE, CL_READ_DONE, CL_PREEMPT, CL_CAS_RETRY, CL_FAILED_ALLOC, CL_FAILED_STRUCT, CL_CROSS_MGR };
+       CL_POL_TAPE, CL_POL_PCT, CL_POL_PREFIX, CL_DUP_DONE, CL_READ_DONE, CL_PREEMPT, CL_CAS_RETRY, CL_FAILED_ALLOC, CL_FAILED_STRUCT, CL_CROSS_MGR, CL_VACUUM, CL_MGR_RELEASED_EARLY };
 static const char *const class_names[] = {
     "two_frees_in_flight_together", "dup_in_flight_with_free", "last_two_decrements_by_different_threads", "three_threads",
     "context_switch_inside_operation", "pool_depth_0", "pool_depth_positive", "policy_tape", "policy_pct", "policy_prefix",
-    "dup_executed", "read_executed", "preempted", "pool_cas_retry", "allocation_failures_before_the_area", "structure_allocation_refused_before_the_area", "block_from_picture_plane_outlives_the_picture_manager", NULL };
+    "dup_executed", "read_executed", "preempted", "pool_cas_retry", "allocation_failures_before_the_area", "structure_allocation_refused_before_the_area", "block_from_picture_plane_outlives_the_picture_manager",
+    "pools_flushed_with_idle_structures_before_the_area", "creator_releases_the_manager_while_buffers_are_freed", NULL };
 
 struct prog {
     int nthreads;
@@ -62,6 +63,10 @@ struct prog {
     int failed_allocs;          /* allocations that fail (umem exhausted) before the shared area is made: 0-2 (last: the templates use positional initialisers) */
     int cross_mgr;              /* before the race: a block made from the plane of a picture outlives the picture and the creator's reference
                                  * on the picture manager -- the manager must live until that block is freed */
+    int vacuum;                 /* before the race: buffers allocated and freed (their structures idle in the pools), then the pools are flushed:
+                                 * flushing takes nothing from the manager's count */
+    int early_release;          /* the creator's reference on the buffer manager is given back by the last thread, as its first operation: the
+                                 * buffers keep the manager alive, its destructor runs with the last of them */
     int failed_struct;          /* a refused allocation of a buffer STRUCTURE before the shared area is made (engine/faultmalloc.h):
                                  * 1 = in ubuf_block_alloc, 2 = for the second segment while a two-segment block is duplicated */
 };
@@ -196,6 +201,11 @@ static void worker(void *arg)
 {
     int t = (int)(intptr_t)arg;
     const struct prog *p = &cx.p;
+    if (p->early_release && t == p->nthreads - 1) {
+        vs_op_begin(OP_READ, 0, 0);
+        ubuf_mgr_release(cx.mgr);
+        vs_op_end(1);
+    }
     for (int j = 0; j < p->nops[t] && !cx.fkey[0]; j++) {
         if (cx.nh[t] <= 0) break;
         switch (p->ops[t][j]) {
@@ -279,6 +289,21 @@ static int run_case(const struct prog *prog, struct vs_config *cfg, struct vp_re
         }
         cx.prelude_allocs = cx.prelude_frees = 0;
     }
+    if (inner && cx.mgr && p->vacuum) {
+        cx.prelude = true;
+        struct ubuf *a = ubuf_block_alloc(cx.mgr, AREA), *b = ubuf_block_alloc(cx.mgr, AREA);
+        if (a) ubuf_free(a);
+        if (b) ubuf_free(b);
+        ubuf_mgr_vacuum(cx.mgr);
+        if (p->vacuum == 2) ubuf_mgr_vacuum(cx.mgr);
+        cx.prelude = false;
+        cx.prelude_allocs = cx.prelude_frees = 0;
+        rep->classes |= 1u << CL_VACUUM;
+        if (urefcount_single(&cx.w.rc)) {       /* (the buffer manager holds a reference on its memory manager until it is destroyed) */
+            __lsan_enable(); vs_end();
+            return vp_fail(rep, "C09/manager/destroyed-early", "buffers were allocated and freed and the pools flushed while the creator still holds the buffer manager: its destructor has run");
+        }
+    }
 #ifdef VP_FAULTMALLOC_H
     cx.prelude = true;
     /* the same for a refused allocation of a structure: whatever the failed call had taken (a reference on the manager, on a
@@ -346,7 +371,7 @@ static int run_case(const struct prog *prog, struct vs_config *cfg, struct vp_re
     vs_end();
 
     uint64_t h = VP_HASH_INIT;
-    h = vp_hash_mix(h, (uint64_t)p->nthreads | (uint64_t)p->ubuf_pool << 8 | (uint64_t)p->shared_pool << 16);
+    h = vp_hash_mix(h, (uint64_t)p->nthreads | (uint64_t)p->ubuf_pool << 8 | (uint64_t)p->shared_pool << 16 | (uint64_t)p->vacuum << 24 | (uint64_t)p->early_release << 28);
     for (int t = 0; t < p->nthreads; t++) {
         h = vp_hash_mix(h, (uint64_t)p->init[t] << 8 | (uint64_t)p->nops[t]);
         for (int j = 0; j < p->nops[t]; j++) h = vp_hash_mix(h, p->ops[t][j]);
@@ -380,7 +405,8 @@ static int run_case(const struct prog *prog, struct vs_config *cfg, struct vp_re
     /* teardown (sequential); skipped after a failure: the structures may be inconsistent and the
      * verdict is already decided (LeakSanitizer is told to ignore this case's allocations) */
     if (r == VS_DONE && ret == 0) {
-        ubuf_mgr_release(cx.mgr);
+        if (!p->early_release) ubuf_mgr_release(cx.mgr);
+        else rep->classes |= 1u << CL_MGR_RELEASED_EARLY;
         struct umem_count_stats *s = umem_count_stats(inner);
         if (cx.fkey[0])
             ret = vp_fail(rep, cx.fkey, "%s", cx.fmsg);
@@ -408,6 +434,8 @@ static void decode_prog(struct tape *t, struct prog *p)
     p->failed_allocs = (b0 >> 1) % 4 == 3 ? 1 + ((b0 >> 3) & 1) : 0;
     p->cross_mgr = ((b0 >> 1) % 4 == 1 && (b0 & 0x10)) ? 1 : 0;
     p->failed_struct = ((b0 >> 1) % 4 == 2 && (b0 & 0x10)) ? 1 + ((b0 >> 3) & 1) + 2 * ((b0 >> 5) & 1) : 0;      /* 1..4 */
+    p->vacuum = ((b0 >> 1) % 4 == 0 && (b0 & 0x10)) ? 1 + ((b0 >> 3) & 1) : 0;
+    p->early_release = (b0 & 0x40) ? 1 : 0;
     uint8_t pc = tp_u8(t) % 5;
     p->ubuf_pool = pool_cfg[pc][0];
     p->shared_pool = pool_cfg[pc][1];
